@@ -924,3 +924,122 @@ pub fn c20_sweep(cx: &SweepCtx, quick: bool) {
     });
     cx.stats.sample(|| format!("{} texts x 7 storage states; None::<LeanString> stores {none_tag:#x} in the last byte", texts_.len()));
 }
+
+// -------------------------------------------------------------------------------------
+// C01: single operations on (a) a full inline string with every possible 16th byte and
+// (b) long texts (lengths around 64, 256, 4 KiB, 64 KiB), in every storage state, against String
+
+fn c01_ops(h: &mut LeanString, m: &mut String, op: usize, idx: usize) -> Result<bool, String> {
+    // returns Ok(outcomes agree); the model decides whether a panic is expected
+    macro_rules! both {
+        ($l:expr, $r:expr) => {{
+            let a = quiet(|| $l);
+            let b = quiet(|| $r);
+            match (a, b) {
+                (Ok(x), Ok(y)) => Ok(format!("{x:?}") == format!("{y:?}")),
+                (Err(_), Err(_)) => Ok(true),
+                (a, b) => Err(format!("LeanString {:?}, String {:?}", a.map(|x| format!("{x:?}")), b.map(|x| format!("{x:?}")))),
+            }
+        }};
+    }
+    match op {
+        0 => both!(h.pop(), m.pop()),
+        1 => both!(h.push('€'), m.push('€')),
+        2 => both!(h.push_str("xy"), m.push_str("xy")),
+        3 => both!(h.insert(idx, 'é'), m.insert(idx, 'é')),
+        4 => both!(h.insert_str(idx, "0123456789abcdefg"), m.insert_str(idx, "0123456789abcdefg")),
+        5 => both!(h.remove(idx), m.remove(idx)),
+        6 => both!(h.truncate(idx), m.truncate(idx)),
+        7 => {
+            let mut n = 0;
+            let mut k = 0;
+            both!(h.retain(|_| { n += 1; n % 3 != 0 }), m.retain(|_| { k += 1; k % 3 != 0 }))
+        }
+        8 => both!(h.clear(), m.clear()),
+        9 => both!(h.shrink_to_fit(), ()),
+        10 => both!(h.reserve(idx), ()),
+        11 => both!({ let c = h.clone(); h.push_str(&c) }, { let c = m.clone(); m.push_str(&c) }),
+        12 => both!(h.extend(['a', '😀']), m.extend(['a', '😀'])),
+        _ => both!(*h += "z", *m += "z"),
+    }
+}
+const C01_OPS: usize = 14;
+
+pub fn c01_sweep(cx: &SweepCtx, quick: bool, threads: usize) {
+    let mut texts_: Vec<String> = Vec::new();
+    for b in 0u8..=0x7F {
+        texts_.push(format!("{}{}", ascii(INLINE - 1), b as char));
+    }
+    for b in 0x80u8..=0xBF {
+        for tail in [vec![0xC3, b], vec![0xE1, 0x80, b], vec![0xF1, 0x80, 0x80, b]] {
+            let tail = String::from_utf8(tail).unwrap();
+            texts_.push(format!("{}{tail}", ascii(INLINE - tail.len())));
+        }
+    }
+    let n_inline = texts_.len();
+    let mut lens = vec![63usize, 64, 65, 255, 256, 257, 4095, 4096, 4097];
+    if !quick {
+        lens.extend([65535, 65536, 65537, (1 << 20) + 1]);
+    }
+    for n in lens {
+        texts_.push(long_text(n));
+    }
+    par_for_guarded(cx, "C01", texts_.len(), threads, |ti| {
+        let t = &texts_[ti];
+        cx.trace(&format!("C01 sweep on a {}-byte text", t.len()));
+        let idxs: Vec<usize> = {
+            let mut v = vec![0, 1, t.len() / 2, t.len().saturating_sub(1), t.len(), t.len() + 1];
+            // the nearest char boundaries around the middle and the end
+            for base in [t.len() / 2, t.len().saturating_sub(4)] {
+                for d in 0..4 {
+                    if t.is_char_boundary((base + d).min(t.len())) {
+                        v.push((base + d).min(t.len()));
+                        break;
+                    }
+                }
+            }
+            v.sort_unstable();
+            v.dedup();
+            v
+        };
+        for st in STORAGES {
+            for op in 0..C01_OPS {
+                let uses_idx = matches!(op, 3..=6 | 10);
+                for &idx in if uses_idx { &idxs[..] } else { &idxs[..1] } {
+                    shim::with(|s| s.reset());
+                    let mut b = match build(t, st) {
+                        Some(b) => b,
+                        None => continue,
+                    };
+                    let mut m = t.clone();
+                    cx.count();
+                    let sib: Vec<Vec<u8>> = b.siblings.iter().map(|s| s.as_bytes().to_vec()).collect();
+                    let r = c01_ops(&mut b.s, &mut m, op, idx);
+                    let desc = format!("{st:?} text of {} bytes ending in {:#04x}: op #{op} at {idx}", t.len(), t.as_bytes().last().copied().unwrap_or(0));
+                    let mut out = Vec::new();
+                    match r {
+                        Ok(true) => {}
+                        Ok(false) => out.push(Viol { prop: "C01", oracle: "return-value", detail: format!("{desc}: returned value differs from String's") }),
+                        Err(e) => out.push(Viol { prop: "C01", oracle: "outcome", detail: format!("{desc}: {e}") }),
+                    }
+                    if b.s.as_bytes() != m.as_bytes() || b.s.len() != m.len() || b.s.is_empty() != m.is_empty() {
+                        let show = |x: &[u8]| String::from_utf8_lossy(&x[..x.len().min(40)]).into_owned();
+                        out.push(Viol { prop: "C01", oracle: "text", detail: format!("{desc}: reads {:?}.. (len {}), String holds {:?}.. (len {})", show(b.s.as_bytes()), b.s.len(), show(m.as_bytes()), m.len()) });
+                    }
+                    for (s0, s1) in sib.iter().zip(b.siblings.iter()) {
+                        if s0 != s1.as_bytes() {
+                            out.push(Viol { prop: "C01", oracle: "sibling-text", detail: format!("{desc}: a string sharing the buffer changed") });
+                        }
+                    }
+                    let errs = shim::with(|s| s.errors.first().cloned().or(s.audit().first().cloned()));
+                    if let Some(e) = errs {
+                        out.push(Viol { prop: "C01", oracle: "heap", detail: format!("{desc}: {e}") });
+                    }
+                    cx.report(&out, "op-sweep", &format!("{st:?}"), &desc);
+                }
+            }
+        }
+        cx.stats.class(if ti < n_inline { "every-16th-byte".to_string() } else { format!("long-text-{}", t.len()) });
+        cx.stats.sample(|| format!("{}-byte text: {C01_OPS} operations x indices {idxs:?} x 7 storage states", t.len()));
+    });
+}
